@@ -235,6 +235,16 @@ func (db *DB) Load(r io.Reader, maxPendingWrites int) error {
 	unmarshalBuf := make([]byte, 1<<10)
 
 	ldr := db.NewKVLoader(maxPendingWrites)
+	// The loop below moves nextTxnTs past every version it loads. When Load gives up half way
+	// (a truncated or damaged backup), the timestamps claimed so far still have to be marked done:
+	// every later transaction waits for them before it starts.
+	finished := false
+	defer func() {
+		if !finished {
+			_ = ldr.Finish() // wait for the writes that are already on their way
+			db.orc.txnMark.Done(db.orc.nextTxnTs - 1)
+		}
+	}()
 	for {
 		var sz uint64
 		err := binary.Read(br, binary.LittleEndian, &sz)
@@ -273,6 +283,7 @@ func (db *DB) Load(r io.Reader, maxPendingWrites int) error {
 	if err := ldr.Finish(); err != nil {
 		return err
 	}
+	finished = true
 	db.orc.txnMark.Done(db.orc.nextTxnTs - 1)
 	return nil
 }
